@@ -1,10 +1,10 @@
 (* driver for the C08 model (Model/RecvLedger.v): one case per line
-   h <ev>*      events:  O:sid  D:sid:n:pad|-  E:sid  R:sid:size  W:sid  C:sid  X:sid  Z
+   h <ev>*      events:  O:sid  D:sid:n:pad|-  E:sid  R:sid:size  W:sid  C:sid  X:sid  Z  P (pause)  Q (resume)
      -> per event its outputs (comma separated, "." for none):
           r<sid>:<k> received | a<sid>:<k> acknowledged | d<sid>:<k> forfeited (closing) | b<sid> read blocked |
           R<sid>:<data|eof|empty|assert|badsize|busy|nostream>
-        then "|" and per stream id mentioned (ascending)  sid:received:credited:dropped:held:registered(0/1)
-        then "|" received_conn credited_conn dropped_conn held_conn closing legal
+        then "|" and per stream id mentioned (ascending)  sid:received:credited:forfeited:held:registered(0/1)
+        then "|" received_conn credited_conn forfeited_conn held_conn closing legal
    cfg <cw> <sw>   Configuration(...) then connection_made
      -> reject | h2error | ok <wu|-> <iws|-> <advertised conn> <advertised stream>
    raw <cw> <sw>   connection_made without the Configuration validators
@@ -24,10 +24,12 @@ let parse_event w =
   | ["C"; s] -> Cancel (zi (int_of_string s))
   | ["X"; s] -> Release (zi (int_of_string s))
   | ["Z"] -> Close
+  | ["P"] -> Pause
+  | ["Q"] -> Resume
   | _ -> failwith ("bad event " ^ w)
 let sid_of = function
   | Open s | Data (s, _, _) | EndStream s | Read (s, _) | Wake s | Cancel s | Release s -> Some (iz s)
-  | Close -> None
+  | Close | Pause | Resume -> None
 let show_res = function
   | RData -> "data" | REof -> "eof" | REmpty -> "empty" | RAssert -> "assert" | RBadSize -> "badsize"
   | RBusy -> "busy" | RNoStream -> "nostream"
@@ -53,10 +55,10 @@ let handle = function
     let per = List.map (fun x ->
         let z = zi x in
         Printf.sprintf "%d:%d:%d:%d:%d:%d" x (iz (received z outs)) (iz (credited z outs))
-          (iz (dropped z outs)) (iz (held z s)) (match lookup z s.reg with Some _ -> 1 | None -> 0)) sids in
+          (iz (forfeited z s)) (iz (held z s)) (match lookup_live z s.reg with Some _ -> 1 | None -> 0)) sids in
     String.concat " " (List.map show_outs tr) ^ " | " ^ String.concat " " per ^ " | " ^
     Printf.sprintf "%d %d %d %d %s %s" (iz (received_conn outs)) (iz (credited_conn outs))
-      (iz (dropped_conn outs)) (iz (held_conn s)) (word_of_bool s.closing) (word_of_bool (legal init evs))
+      (iz (forfeited_conn s)) (iz (held_conn s)) (word_of_bool s.closing) (word_of_bool (legal init evs))
   | ["cfg"; cw; sw] ->
     let cw = zi (int_of_string cw) and sw = zi (int_of_string sw) in
     (match configure cw sw with
